@@ -275,9 +275,20 @@ MultiParts(type) ==
                                                                                                             \* 2020-02-29 13:05 yesterday
     ELSE {<<49,104,32,51,48,109>>, <<52,53>>, <<49,120>>}                                                   \* "1h 30m" 45 1x
 TextsOf(type, mult) == IF mult THEN MultiParts(type) ELSE Good(type) \cup Bad(type)
-AllTypes == {"str", "int", "float", "bool", "datetime", "timedelta"}
-TextsTable == [t \in AllTypes, m \in BOOLEAN |-> TextsOf(t, m)]          \* constant: evaluated once
-Texts(type, mult) == TextsTable[type, mult]
+(* zero-arity constant definitions: TLC evaluates each of them once *)
+TX_str_s == TextsOf("str", FALSE)        TX_str_m == TextsOf("str", TRUE)
+TX_int_s == TextsOf("int", FALSE)        TX_int_m == TextsOf("int", TRUE)
+TX_float_s == TextsOf("float", FALSE)    TX_float_m == TextsOf("float", TRUE)
+TX_bool_s == TextsOf("bool", FALSE)      TX_bool_m == TextsOf("bool", TRUE)
+TX_dt_s == TextsOf("datetime", FALSE)    TX_dt_m == TextsOf("datetime", TRUE)
+TX_td_s == TextsOf("timedelta", FALSE)   TX_td_m == TextsOf("timedelta", TRUE)
+Texts(type, mult) ==
+    CASE type = "str" -> (IF mult THEN TX_str_m ELSE TX_str_s)
+      [] type = "int" -> (IF mult THEN TX_int_m ELSE TX_int_s)
+      [] type = "float" -> (IF mult THEN TX_float_m ELSE TX_float_s)
+      [] type = "bool" -> (IF mult THEN TX_bool_m ELSE TX_bool_s)
+      [] type = "datetime" -> (IF mult THEN TX_dt_m ELSE TX_dt_s)
+      [] type = "timedelta" -> (IF mult THEN TX_td_m ELSE TX_td_s)
 
 (* python literals written unquoted into a config file: <<literal, type it has, denoted value or Err>> *)
 NativeTable ==
@@ -302,7 +313,8 @@ NativeTable ==
 TextOf(x) == Join(x, <<44>>)
 Ref(c, x) ==
     CASE c.src \in {"cmd", "cfgstr"} -> IF c.mult THEN DenoteMulti(c.type, TextOf(x)) ELSE Denote(c.type, TextOf(x))
-      [] c.src = "flag" -> IF c.type = "bool" /\ ~c.mult THEN Ok(TRUE) ELSE Err
+      [] c.src = "flag" -> IF c.type # "bool" THEN Err            \* documented: --option is --option=true for bool
+                           ELSE IF c.mult THEN Ok(<<TRUE>>) ELSE Ok(TRUE)
       [] c.src = "unknown" -> Err
       [] c.src = "unset" -> Ok(<<"default">>)
       [] c.src = "native" -> LET M == {i \in 1..Len(NativeTable) : NativeTable[i].lit = TextOf(x) /\ NativeTable[i].type = c.type
@@ -327,19 +339,17 @@ InitState == \E t \in Types, m \in Mults, s \in Srcs :
                 /\ (s = "native" => \E i \in 1..Len(NativeTable) : NativeTable[i].type = t /\ NativeTable[i].mult = m)
                 /\ InitWith([type |-> t, mult |-> m, src |-> s])
 
-AllTexts == UNION {Texts(t, m) : t \in {"str", "int", "float", "bool", "datetime", "timedelta"}, m \in BOOLEAN}
-              \cup {NativeTable[i].lit : i \in 1..Len(NativeTable)}
+NativeLits(c) == {NativeTable[i].lit : i \in {i \in 1..Len(NativeTable) : NativeTable[i].type = c.type /\ NativeTable[i].mult = c.mult}}
+OptChoices(c) == IF c.src = "native" THEN NativeLits(c) ELSE Texts(c.type, c.mult)
 Extend(tok) ==
     /\ cfg.src \notin {"flag", "unset"}
     /\ Len(inp) < (IF cfg.mult /\ cfg.src \in {"cmd", "cfgstr"} THEN MaxParts ELSE 1)
-    /\ IF cfg.src = "native" THEN \E i \in 1..Len(NativeTable) : NativeTable[i].lit = tok /\ NativeTable[i].type = cfg.type
-                                                                   /\ NativeTable[i].mult = cfg.mult
-       ELSE tok \in Texts(cfg.type, cfg.mult)
+    /\ tok \in OptChoices(cfg)
     /\ (cfg.src = "cfgstr" => 39 \notin {tok[i] : i \in 1..Len(tok)})
     /\ inp' = Append(inp, tok)
     /\ UNCHANGED cfg
     /\ step' = Obs("extend", <<tok>>)
-Next == \E tok \in AllTexts : Extend(tok)
+Next == \E tok \in OptChoices(cfg) : Extend(tok)
 Spec == InitState /\ [][Next]_<<vars, step>>
 
 ----------------------------------------------------------------------------
